@@ -158,8 +158,6 @@ def ident_at(e, rec, name, where):
 def compare(e, rec, linker):
     """Yields (key, text) for every disagreement between an output and the REPLAY record."""
     dyn = symobs.table(e, dynamic=True)
-    if linker == "wild" and rec["cfg"]["kind"] == "pie":
-        dyn.pop("s_GD000", None)          # MUTATION DEMO
     sym = symobs.table(e, dynamic=False) if e.section_of_type(2) is not None else None
     cfg = rec["cfg"]
     for s in rec["syms"]:
